@@ -345,6 +345,14 @@ func (c19) Run(ctx *Ctx, ci interface{}) (o Outcome) {
 				cc := c16{}.Gen(uint64(op.Seed), "quick", false).(*C16Case)
 				cc.BadAt = -1
 				orfs, seqs, _, _ := cc.bags()
+				if orfs != nil && op.Flag {
+					// a reference set put together through the API, its alphabet never detected
+					u := align.NewSeqBag(align.UNKNOWN)
+					for _, sq := range orfs.Sequences() {
+						u.AddSequence(sq.Name(), sq.Sequence(), "")
+					}
+					orfs = u
+				}
 				beforeSeqs, beforeOrfs := snapshotAlign(seqs), ""
 				if orfs != nil {
 					beforeOrfs = snapshotAlign(orfs) + fmt.Sprint(orfs.Alphabet())
